@@ -14,3 +14,8 @@ for _p in ("C08", "C09"):
                           "random histories and in the exhaustive ones below the maximal length; replays also present never-issued numerals "
                           "inside the range of the issued ones and right after it; directed sweep: every arrangement of 2-4 distinct numbers "
                           "out of six put with explicit IDs, then every number of the range presented")
+
+# round 7: accepted and rejected Puts interleaved on one replayer (heap family)
+PROPS["C19"]["rule"] += ("; accepted and rejected Puts through one replayer in every order up to length 5 (a message without ID, a clone with an "
+                         "explicit ID, the copy the last accepted Put returned), all four replayers; the random sequences follow which members "
+                         "carry an ID, publish any member (earlier publications included) and contain bursts of 2-4 Puts through one replayer")
